@@ -24,7 +24,7 @@ fn cfgs() -> Vec<Cfg> {
     for mfs in [0u64, 60, MFS_BIG] {
         for cache in [0usize, 1, 256] {
             for conc in [1usize, 2] {
-                v.push(Cfg { mfs, thr: Thr::All, cache, conc, seed: 1, sync_always: false });
+                v.push(Cfg { mfs, thr: Thr::All, cache, conc, seed: 1, sync_always: false, clock: 0 });
             }
         }
     }
